@@ -338,7 +338,7 @@ def run_case(case):
         fbs = [0xC0, 0xC3, 0xD1, 0xE2, 0xF0, 0xFF, 0x80, 0xCC] if tier == "quick" else list(range(0x80, 0x100, 5)) + [0xFF]
         combos = [(fb, v, dc, sc, bi, di) for fb in fbs for v in versions for dc in range(len(dcids)) for sc in range(len(scids))
                   for bi in range(len(bodies)) for di in range(len(dsts))
-                  if tier != "quick" or (bi + dc + di) % 2 == 0 or fb >= 0xF0]
+                  if tier != "quick" or ((bi + dc + di) % 2 == 0 or fb >= 0xF0) and (v in versions[:4] or (bi in (1, 4) and di == 0))]
         ats = [i for i, p in enumerate(pkts) if p.conn == 2]
         for w, (fb, v, dc, sc, bi, di) in enumerate(combos):
             if w % nparts != part:
